@@ -79,6 +79,34 @@ var (
 //@   requires? m != nil
 //@   ensures? [error-located] result != nil && result.Token.Type == m.Token.Type && result.Token.Line == m.Token.Line && result.Token.Position == m.Token.Position && result.Token.File == m.Token.File
 
+// every error a parser method returns is a *ParseError (possibly wrapped by errors.WithStack): it
+// carries the token - type, line, position, file - the error refers to
+//@ forall-funcs ^\(\*Parser\)\.Parse [C01]
+//@   ensures? [error-is-a-parse-error C01] err != nil ==> is(err, *ParseError) || is(cause(err), *ParseError)
+// the prefix/infix parser closures registered in the two dispatch maps
+// (p is the captured parser; that the closures stored in p's maps capture p itself is NOT checked at
+// the dynamic call - the maps are written by registerExpressionParsers only, scanned below)
+//@ forall-funcs ^\(\*Parser\)\.registerExpressionParsers\$\d+$ [C01]
+//@   requires okP(p) && p.curToken != nil && p.peekToken != nil
+//@   ensures [error-is-a-parse-error C01] err != nil ==> is(err, *ParseError) || is(cause(err), *ParseError)
+// the accessors used by custom parsers are executed, not abstracted
+//@ func (*Parser).CurToken [C01]
+//@   inline
+//@ func (*Parser).PeekToken [C01]
+//@   inline
+// custom statement parsers: the call goes to one of the module's implementers of CustomParser (closed
+// world: parsers registered by code outside this module are outside the claim), each under its contract
+//@ func (*Parser).Parse [C01]
+//@   dispatch Parse
+//@ func (*Parser).ParseStatement [C01]
+//@   dispatch Parse
+//@ func (*Parser).ParseCustomToken [C01]
+//@   dispatch Parse
+// ParseExpression calls them through the maps: every function those calls can reach carries the clause
+//@ func (*Parser).ParseExpression [C01]
+//@   dynamic-ensures error-is-a-parse-error
+//@   only-writers [C01] F:parser.Parser.prefixParsers F:parser.Parser.infixParsers : registerExpressionParsers
+
 // ---- C02: operator precedence ------------------------------------------------------------------------------
 // The table is the one the property states: `||` loosest, then `&&`, then `~ !~`, `== !=`,
 // `< > <= >=`, then string concatenation (explicit `+` or juxtaposition: a STRING, long string, IDENT or
